@@ -81,7 +81,7 @@ func pairs(tier universe.Tier) *family {
 								continue // boundary id pairs are spread over the matrix (each type pair sees (1,2) and one other)
 							}
 							a, b := *al[ai], *al[bi]
-							f.items = append(f.items, &ref.Struct{Fields: []*ref.Field{
+							f.items = append(f.items, &ref.Struct{DeclReversed: (ai+bi+int(ra))%2 == 1, Fields: []*ref.Field{
 								{ID: ids[0], Req: ra, Type: &a}, {ID: ids[1], Req: rb, Type: &b}}})
 						}
 					}
@@ -103,7 +103,7 @@ func triples() *family {
 				for ci := range al {
 					for r := 0; r < 3; r++ {
 						a, b, c := *al[ai], *al[bi], *al[ci]
-						f.items = append(f.items, &ref.Struct{Fields: []*ref.Field{
+						f.items = append(f.items, &ref.Struct{DeclReversed: (ai+ci)%2 == 1, Fields: []*ref.Field{
 							{ID: 1, Req: reqs[r], Type: &a}, {ID: 64, Req: reqs[(r+1)%3], Type: &b}, {ID: 300, Req: reqs[(r+2)%3], Type: &c}}})
 					}
 				}
@@ -147,7 +147,7 @@ func wide() *family {
 		al := universe.Reduced14()
 		reqs := []ref.Req{ref.ReqDefault, ref.ReqOptional, ref.ReqRequired}
 		for variant := 0; variant < 3; variant++ {
-			s := &ref.Struct{Unknown: variant == 2}
+			s := &ref.Struct{Unknown: variant == 2, DeclReversed: variant == 1}
 			for i := 0; i < 40; i++ {
 				t := *al[(i+variant)%len(al)]
 				req := reqs[(i+variant)%3]
